@@ -46,6 +46,13 @@ def run(ck):
     ck.mc("MCArrayList", "C07_mc_t.cfg" if thorough else "C07_mc.cfg", workers=16 if thorough else 8, xmx="16g", timeout=3000)
     for m in MUTS:
         ck.mc_must_fail("MCArrayList", "C07_asfound_%s.cfg" % m, workers=4, timeout=600)
+    # every capacity, length and argument value in 0..SIZE_MAX (exact integers, real constants): an inductive invariant checked by
+    # Apalache - no size_t computation wraps, no slot beyond the capacity is touched, length <= size <= SIZE_MAX/8; the shrink
+    # with the weakened guard (a seeded change) must break it
+    ck.prove("ArrayListInd", "CInit", "Init", "IndInv", 0)
+    ck.prove("ArrayListInd", "CInit", "IndInv", "IndInv", 1)
+    ck.prove("ArrayListInd", "CInit", "IndInv", "Safety", 0)
+    ck.prove("ArrayListInd", "CInitBad", "IndInv", "IndInv", 1, must_fail=True)
     exe = vlib.build("san", vlib.harness_sources(), "vh")
     hists, r = vlib.tlc_export_edges("GArrayList", "C07_g.cfg", timeout=1800, xmx="8g")
     ck.add_tlc(r)
